@@ -37,7 +37,7 @@ SLOTS = {
     "with2": ["body"],
     "func": ["body"],
 }
-JUMPS = ["none", "break", "continue", "return", "raise_EA", "raise_EB", "raise_EC", "raise_bare", "raise_from", "assert", "raise_key"]
+JUMPS = ["none", "break", "continue", "return", "raise_EA", "raise_EB", "raise_EC", "raise_bare", "raise_from", "assert", "raise_key", "assert_pass", "assert_msg"]
 HANDLERS = ["except EA:", "except (EC, EA) as e:", "except Exception as e:", "except:", "except EB:", "except (KeyError, EC):"]
 
 
@@ -117,6 +117,9 @@ class Render:
             sup = ", suppress=True" if kind == "with1s" else ""
             fe = ", fail_exit=True" if extra.get("fail_exit") else ""
             as_ = f" as w{t}" if extra.get("as") else ""
+            if extra.get("badtarget"):
+                # assigning the target fails: the manager is exited with that error (and may suppress it)
+                as_ = f" as (w{t}, v{t})"
             self.emit(ind, f"with CM({t}{sup}{fe}){as_}:")
             self.block(g("body"), ind + 1, ctx)
         elif kind == "with2":
@@ -124,7 +127,8 @@ class Render:
             sa = ", suppress=True" if extra.get("sup_a") else ""
             sb = ", suppress=True" if extra.get("sup_b") else ""
             fe = ", fail_enter=True" if extra.get("fail_enter_b") else ""
-            self.emit(ind, f"with CM({a}{sa}) as wa{a}, CM({b}{sb}{fe}):")
+            tb_ = f" as (wb{b}, vb{b})" if extra.get("badtarget_b") else ""
+            self.emit(ind, f"with CM({a}{sa}) as wa{a}, CM({b}{sb}{fe}){tb_}:")
             self.block(g("body"), ind + 1, ctx)
         elif kind == "func":
             self.cnt += 1
@@ -159,6 +163,11 @@ class Render:
             self.emit(ind, f"raise EC({t}) from EA({t})")
         elif j == "assert":
             self.emit(ind, f"assert T({t}, False), 'a{t}'")
+        elif j == "assert_pass":
+            # a passing assert never evaluates its message
+            self.emit(ind, f"assert T({t}, True), T({self.tag()}, [][0])" if t % 2 else f"assert T({t}, 1), T({self.tag()}, 'unused')")
+        elif j == "assert_msg":
+            self.emit(ind, f"assert T({t}, 0), T({self.tag()}, 'm{t}')")
         else:
             raise ValueError(j)
 
@@ -181,9 +190,9 @@ def rand_extra(rng, c):
     if c in ("for", "for_else", "while", "while_else"):
         return {"n": rng.choice([0, 1, 2, 2, 3])}
     if c in ("with1", "with1s"):
-        return {"as": rng.random() < 0.4, "fail_exit": rng.random() < 0.1}
+        return {"as": rng.random() < 0.4, "fail_exit": rng.random() < 0.1, "badtarget": rng.random() < 0.12}
     if c == "with2":
-        return {"sup_a": rng.random() < 0.3, "sup_b": rng.random() < 0.3, "fail_enter_b": rng.random() < 0.1}
+        return {"sup_a": rng.random() < 0.3, "sup_b": rng.random() < 0.3, "fail_enter_b": rng.random() < 0.1, "badtarget_b": rng.random() < 0.12}
     return {}
 
 
